@@ -143,7 +143,9 @@ def must_raise(data, blanks, minT, maxT):
         return False
     lo = data["min"] if minT is None else minT
     hi = data["max"] if maxT is None else maxT
-    return any(t["t"] == "I" and t["entries"] and (t["entries"][0][0] < lo or t["entries"][-1][1] > hi) for t in data["tiers"])
+    # "if an entry would fall outside the requested span the save raises": intervals and points alike (save's docstring: "If
+    # maxTimestamp is smaller than timestamps in your textgrid, an exception will be thrown")
+    return any(t["entries"] and (t["entries"][0][0] < lo or t["entries"][-1][-2] > hi) for t in data["tiers"])
 
 
 def domain_ok(data, fmt, blanks, minT, maxT, thr):
@@ -201,7 +203,7 @@ def _str_post(ctx):
         if any(t["t"] == "I" and t["entries"] and (0 < lo_ - t["entries"][0][0] <= 1e-13 * max(1.0, abs(lo_)) or 0 < t["entries"][-1][1] - hi_ <= 1e-13 * max(1.0, abs(hi_))) for t in data["tiers"]):
             REC.cls("C04:override-ulps-inside-data")
         if ctx.exc is None:
-            REC.violation(PROP, "write", "getTextgridAsStr", case, "an interval lies outside the requested span [%r, %r] with blank filling on: the writer must raise, it returned a document" % (
+            REC.violation(PROP, "write", "getTextgridAsStr", case, "an entry (interval or point) lies outside the requested span [%r, %r] with blank filling on: the writer must raise, it returned a document" % (
                 data["min"] if minT is None else minT, data["max"] if maxT is None else maxT), sig, mech)
         else:
             REC.held("write", sig, "C04:override-raises", case)
